@@ -418,7 +418,7 @@ func (co *coord) runBox(bi int, deadline time.Time) *boxStats {
 			co.samples = append(co.samples, map[string]interface{}{"box": box.ID, "why": why, "events": lines})
 		}
 		addSample("deepest path", deepest)
-		for _, b := range []int{bit(fCommitOlderTerm), bit(fTruncation), bit(fSnapApplied), bit(fConfApplied), bit(fTwoLeaders)} {
+		for _, b := range []int{bit(fCommitOlderTerm), bit(fTruncation), bit(fSnapApplied), bit(fConfApplied), bit(fTwoLeaders), bit(fSnapBehindCompact)} {
 			if id, ok := firstWith[b]; ok && len(co.samples) < 12 {
 				addSample("first path with "+flagNames[b], id)
 			}
@@ -467,9 +467,9 @@ func run(prop string) int {
 		tier = "quick"
 	}
 	os.Setenv("RAFTMC_COORD", strconv.Itoa(os.Getpid()))
-	total := 80 * time.Second
+	total := 100 * time.Second
 	if tier == "thorough" {
-		total = 14 * time.Minute
+		total = 17 * time.Minute
 	}
 	if s := os.Getenv("RAFTMC_BUDGET_S"); s != "" {
 		if n, err := strconv.Atoi(s); err == nil {
